@@ -427,9 +427,16 @@ def line_types(man):
 # scanner.rs: every place that can consume a "\n" counts it, and nothing else moves the line counter
 
 def newline_shape(man):
+    """Every place of scanner.rs that tests for a line break and consumes it counts it, and every `self.line += 1` sits
+    directly under such a test:
+      counting site  =  match arm  "\n" => { .. self.line += 1; .. }
+                     |  if <cond mentioning "\n" or '\n' positively: == / ends_with( / match_char(> { .. self.line += 1; .. }
+      allowed other uses of the literal:  != "\n" (stops BEFORE it), push_str("\n") / push('\n') (value of a literal);
+      required sites: an arm in skip_whitespace and in string; a site in read_escaped_bytes (it advances over characters
+      it does not look at: /repo 914ba97, finding escape_swallows_newline)."""
     sc = toks_of("scanner.rs")
-    NL = '"\\n"'
-    problems, arms, fns_with_arm = [], 0, set()
+    NLS = ('"\\n"', "'\\n'")
+    problems, sites = [], []          # sites: (function, kind, block open index, block close index)
     fns = vm_functions(sc)
 
     def owner(i):
@@ -442,37 +449,63 @@ def newline_shape(man):
     def has_incr(lo, hi):
         return find_sub(texts(sc, lo, hi + 1), ["self", ".", "line", "+=", "1", ";"]) >= 0
     for i, t in enumerate(sc):
-        if t.kind == "str" and t.text == NL:
+        if t.kind in ("str", "chr") and t.text in NLS:
             nxt, prev = sc[i + 1].text, sc[i - 1].text
-            if nxt == "=>":                               # match arm  "\n" => { ... }
+            call = sc[i - 2].text if prev == "(" else None
+            if nxt == "=>":                               # match arm
                 if sc[i + 2].text != "{":
-                    problems.append("scanner.rs:%d: \"\\n\" arm without a block" % t.line)
+                    problems.append("scanner.rs:%d: newline arm without a block" % t.line)
                     continue
                 e = match_group(sc, i + 2)
-                arms += 1
-                fns_with_arm.add(owner(i))
-                if not has_incr(i + 2, e):
-                    problems.append("scanner.rs:%d: the \"\\n\" arm of %s does not count the line" % (t.line, owner(i)))
-            elif prev == "==" or (prev == "(" and sc[i - 2].text == "match_char"):
-                # `x == "\n"` / match_char("\n") guarding a block: the block consumes the newline -> it must count it
+                if has_incr(i + 2, e):
+                    sites.append((owner(i), "arm", i + 2, e))
+                else:
+                    problems.append("scanner.rs:%d: the newline arm of %s does not count the line" % (t.line, owner(i)))
+            elif prev == "==" or call in ("match_char", "ends_with", "starts_with", "contains"):
+                # a positive test guarding a block: the block consumes / has consumed the line break -> it must count it
                 j = i
                 while j < len(sc) and sc[j].text not in ("{", ";"):
                     j += 1
-                if j >= len(sc) or sc[j].text != "{" or not has_incr(j, match_group(sc, j)):
-                    problems.append("scanner.rs:%d: %s tests for \"\\n\" and does not count the line" % (t.line, owner(i)))
-            elif prev == "!=" or (prev == "(" and sc[i - 2].text == "push_str"):
-                pass                                      # stops BEFORE the newline / writes one into a literal's value
+                # the test must be the condition of an `if` (not negated)
+                k = i
+                while k > 0 and sc[k].text not in ("if", "while", ";", "{", "}"):
+                    k -= 1
+                cond = texts(sc, k, j)
+                g = find_sub(cond, ["!", "self", ".", "is_at_end", "(", ")", "&&"])
+                if g >= 0:                                  # `!self.is_at_end() && <test>` is the same test
+                    cond = cond[:g] + cond[g + 7:]
+                if j >= len(sc) or sc[j].text != "{" or sc[k].text != "if" or "!" in cond or "||" in cond:
+                    problems.append("scanner.rs:%d: %s tests for a line break in a shape that is not `if <test> { .. }`" % (t.line, owner(i)))
+                elif not has_incr(j, match_group(sc, j)):
+                    problems.append("scanner.rs:%d: %s tests for a line break and does not count the line" % (t.line, owner(i)))
+                else:
+                    sites.append((owner(i), "if", j, match_group(sc, j)))
+            elif prev == "!=" or call in ("push_str", "push"):
+                pass
             else:
-                problems.append("scanner.rs:%d: unrecognised use of \"\\n\" in %s" % (t.line, owner(i)))
+                problems.append("scanner.rs:%d: unrecognised use of a newline literal in %s" % (t.line, owner(i)))
     b = texts(sc, 0, len(sc))
-    incrs = len([1 for i in range(len(b) - 5) if b[i:i + 6] == ["self", ".", "line", "+=", "1", ";"]])
+    incr_at = [i for i in range(len(b) - 5) if b[i:i + 6] == ["self", ".", "line", "+=", "1", ";"]]
     writes = len([1 for i in range(len(b) - 3) if b[i:i + 3] == ["self", ".", "line"] and b[i + 3] in ("=", "+=", "-=", "*=")])
-    if incrs != arms or writes != incrs:
-        problems.append("scanner.rs: %d writes of self.line, %d of them `+= 1`, for %d \"\\n\" arms" % (writes, incrs, arms))
-    for need in ("skip_whitespace", "string"):
-        if need not in fns_with_arm:
-            problems.append("scanner.rs: fn %s has no \"\\n\" arm" % need)
-    man["c17_scanner_newlines"] = {"newline_arms": arms, "line_increments": incrs, "functions": sorted(fns_with_arm), "problems": problems}
+    for i in incr_at:
+        inside = [st for st in sites if st[2] < i < st[3]]
+        # directly under the test: no loop between the site's block and the increment
+        if not inside:
+            problems.append("scanner.rs:%d: `self.line += 1` in %s is not under a test for a line break" % (sc[i].line, owner(i)))
+        else:
+            lo = max(st[2] for st in inside)
+            if any(x in ("while", "for", "loop") for x in b[lo:i]):
+                problems.append("scanner.rs:%d: `self.line += 1` in %s is inside a loop under the test" % (sc[i].line, owner(i)))
+    if writes != len(incr_at) or len(incr_at) != len(sites):
+        problems.append("scanner.rs: %d writes of self.line, %d of them `+= 1`, for %d counting sites" % (writes, len(incr_at), len(sites)))
+    have = {(st[0], st[1]) for st in sites}
+    for need in (("skip_whitespace", "arm"), ("string", "arm")):
+        if need not in have:
+            problems.append("scanner.rs: fn %s has no counting newline arm" % need[0])
+    if any(name == "read_escaped_bytes" for name, _o, _c in fns) and not any(st[0] == "read_escaped_bytes" for st in sites):
+        problems.append("scanner.rs: fn read_escaped_bytes advances over characters it does not look at and has no counting site")
+    man["c17_scanner_newlines"] = {"counting_sites": sorted("%s:%s" % (st[0], st[1]) for st in sites), "line_increments": len(incr_at),
+                                   "problems": problems}
     return not problems
 
 
@@ -518,8 +551,9 @@ def gen_unwindarms(man):
              "Definition dispatch_errors_go_through_handlers : bool := %s." % coq_bool(dispatch_ok),
              "(* chunk.rs Chunk.lines / write, scanner.rs Token.line / Scanner.line, every `line as T`: at least 32 bits *)",
              "Definition line_types_wide : bool := %s." % coq_bool(lines_wide),
-             "(* scanner.rs: every \"\\n\" match arm (skip_whitespace, string) does `self.line += 1`; no test `== \"\\n\"` /",
-             "   match_char(\"\\n\") consumes a newline without counting it; self.line is written nowhere else *)",
+             "(* scanner.rs: every newline match arm (skip_whitespace, string) and every `if <test for a line break> { }` block",
+             "   (read_escaped_bytes) does `self.line += 1`; every increment sits directly under such a test; self.line is",
+             "   written nowhere else *)",
              "Definition scanner_counts_every_newline : bool := %s." % coq_bool(newlines_ok),
              "(* vm.rs fn new_error_from_value: class name of the instance, message split at newlines *)",
              "Definition unhandled_names_instance_class : bool := %s." % coq_bool(udesc),
